@@ -1922,6 +1922,10 @@ fn main() {
         let txt = std::fs::read_to_string(path).unwrap_or_else(|e| vh::machinery_failure(&format!("replay file: {e}")));
         let v: Value = serde_json::from_str(&txt).unwrap_or_else(|e| vh::machinery_failure(&format!("replay json: {e}")));
         let r = if v.get("replay").is_some() { v["replay"].clone() } else { v.clone() };
+        if r["part"] == "sctp" {
+            vh::install_quiet_panic_hook();
+            std::process::exit(vh::c17sctp::replay(&r, cli.seed));
+        }
         let Some(case) = Case::from_json(&r["case"]) else { vh::machinery_failure("replay: no case") };
         let kind = r["kind"].as_str().unwrap_or("").to_string();
         let on = r["on"].as_str().unwrap_or("").to_string();
@@ -2179,6 +2183,12 @@ fn main() {
     if outcomes.len() < 2 {
         vh::machinery_failure("fewer than 2 distinct outcomes: vacuous run");
     }
+    // ---- transport-level part (engine E2, deterministic simulator): the peer ends the SCTP
+    // association (ABORT / SHUTDOWN / SHUTDOWN-ACK) at every datagram boundary
+    vh::install_quiet_panic_hook();
+    let sctp_n = vh::c17sctp::sctp_part(&mut rep, cli.tier == vh::Tier::Thorough, cli.seed);
+    rep.add("evaluations", sctp_n);
+    rep.assume("transport-level part: the terminating chunk is sealed under the genuine peer's DTLS keys on the deterministic simulator; after SHUTDOWN the peer completes the shutdown handshake and goes silent, and the victim is given its configured heartbeat budget (20 x 15 s) in virtual time");
     if !unreached.is_empty() {
         let code = rep.finish();
         if code == 0 {
